@@ -155,4 +155,7 @@ def merge_coverage(prop, partials, spec):
     return cov
 
 
+RULES["C14"] = "Generated documents: forest spec (each node attaches below the previous node, beside it, below a generated earlier node, or starts/extends a top-level chain; built with append_value / append / prepend) x four independent renderings per payload (1-4 lines, empty first/interior lines, guide look-alike text, tabs, multi-byte chars; last line non-empty) x a chunking plan for the payload's write_str calls. EVERY node is used as start node in all four format modes; oracle = independent reference renderer (exact comparison; trailing blanks ignored only on empty payload lines). An evaluation is one (document, start node, mode). Non-trivial: start node with siblings and children, or a multi-line payload at relative depth >= 2 below a last-sibling ancestor; distinct by printed text."
+
 SPECS = {p: history_spec(p) for p in RULES}
+SPECS["C14"]["assumptions"] = ["payload renderings are non-empty and do not end in a newline (the property's precondition), by construction", "documents have <= 20 (quick) / 28 (thorough) nodes, payloads <= 4 lines"]
